@@ -5,6 +5,7 @@
 export GOFLAGS=-mod=mod GOPROXY=off GOSUMDB=off GOTOOLCHAIN=local
 here=$(cd "$(dirname "$0")/.." && pwd)
 patch=$1; [ -d "$patch" ] && patch=$patch/patch.diff
+patch=$(cd "$(dirname "$patch")" && pwd)/$(basename "$patch")
 prop=$2; tier=${3:-quick}
 wt=/tmp/wt/run-$$-$prop
 mkdir -p /tmp/wt
